@@ -454,6 +454,14 @@ def plan(tier):
                     # presentation times whose 90 kHz PTS crosses 2^32 (47 722 s) and wraps at 2^33 (95 444 s)
                     for phase in (47722.0 - 600 + 30, 95443.7 - 600 + 30):
                         items.append(('run', (stream, 'live', v, phase)))
+    # out-of-band schedules need three deviations from the defaults (type, inband=0, a count) before the manifest lists
+    # anything: they are enumerated in both tiers
+    for t in ALPHABET['type']:
+        for count in ('1', '3', '7'):
+            for ts in ('100', '90000', '1'):
+                for start in ('zero', 'boundary+1'):
+                    v = {'type': t, 'inband': '0', 'count': count, 'timescale': ts, 'start': start}
+                    items.append(('run', ('bbb', 'vod', {k: x for k, x in v.items() if DEFAULTS.get(k) != x}, 0)))
     items.append(('codec-special', None))
     step = 2000
     stride = 1 if tier != 'quick' else 9
